@@ -43,6 +43,7 @@ let props : (string * prop) list = [
   "C19", sess_prop P_sess.check_C19 P_sess.nontrivial;
   "C20", { tag = "c20"; check = P_c20.check; cross_header = P_c20.cross_header;
            cross_footer = P_c20.cross_footer; nontrivial = P_c20.nontrivial };
+  "C20", { tag = "sess"; check = (fun f -> (fst (P_sess.check_C08 f), None)); cross_header = ""; cross_footer = ""; nontrivial = P_sess.nontrivial };
 ]
 
 let () =
